@@ -207,7 +207,10 @@ def process_fn(asm, header_line, block, tmpl_line):
             i = j + 1
         elif s.startswith('//@ghost'):
             rest = s[len('//@ghost'):].strip()
-            where, rest = rest.split(None, 1)
+            if rest == 'begin':
+                where, rest = 'begin', '""'
+            else:
+                where, rest = rest.split(None, 1)
             strs, gkv, gfl = _parse_strs(rest)
             if 'optional' in gfl:
                 gkv['optional'] = '1'
@@ -282,6 +285,8 @@ def process_fn(asm, header_line, block, tmpl_line):
         quals = ' '.join(w for w in quals.split() if w != 'const')
         rule('R7', 'const qualifier dropped')
     head = (quals + ' ' if quals else '') + sig
+    if 'loopiso' in flags:
+        asm.emit('#[verifier::loop_isolation(false)]', ('tmpl', tmpl_line))
     if 'external_body' in flags:
         asm.emit('#[verifier::external_body]', ('tmpl', tmpl_line))
         rule('R9', 'external_body: body not verified, ensures assumed')
@@ -325,6 +330,10 @@ def process_fn(asm, header_line, block, tmpl_line):
                 inserts.append((s + mm.end(), [(lkv['iter'] + ': ', None)], 'inline'))
     for (where, snip, gkv, lines) in ghosts:
         nth = int(gkv['nth']) if 'nth' in gkv else None
+        if where == 'begin':
+            inserts.append((1, lines, 'ghost'))
+            rule('R8', 'ghost block (%d lines) at start of body' % len(lines), f['line'])
+            continue
         if 'optional' in gkv and snip not in body:
             rec.setdefault('missing_optional', []).append(snip)
             continue
@@ -458,9 +467,26 @@ def process_item(asm, header_line, tmpl_line):
     asm.items.append(rec)
 
 
+def _load_template(path, depth=0):
+    """template lines with //@include <relative path> spliced in (line numbers restart per file;
+    origins carry the file name)"""
+    out = []
+    for no, ln in enumerate(open(path, encoding='utf-8').read().split('\n'), 1):
+        if ln.strip().startswith('//@include '):
+            inc = os.path.join(os.path.dirname(path), ln.strip().split(None, 1)[1].strip())
+            if depth > 4:
+                raise ScanError('template error: include depth')
+            out += _load_template(inc, depth + 1)
+        else:
+            out.append((ln, '%s:%d' % (os.path.basename(path), no)))
+    return out
+
+
 def assemble(repo, template_path):
     asm = Assembly(repo, template_path)
-    lines = open(template_path, encoding='utf-8').read().split('\n')
+    loaded = _load_template(template_path)
+    lines = [l for l, _ in loaded]
+    asm.tmpl_origin = [o for _, o in loaded]
     i = 0
     while i < len(lines):
         ln = lines[i]
